@@ -22,6 +22,7 @@ import (
 	"sort"
 	"strconv"
 	"strings"
+	"unicode"
 )
 
 type interval struct{ lo, hi int64 }
@@ -343,5 +344,28 @@ func main() {
 	emit(pc)
 	emit(tc)
 	writeIfChanged(filepath.Join(*out, "Consts.v"), c.String())
+	// unicode.ToUpper of the Go runtime the harness is built with (an oracle for
+	// strings.ToUpper in table headers); every code point it changes.
+	var u strings.Builder
+	u.WriteString("(* GENERATED by /verif/translator from the Go runtime's unicode.ToUpper. Do not edit. *)\n")
+	u.WriteString("From Coq Require Import ZArith List.\nImport ListNotations.\nOpen Scope Z_scope.\n\n")
+	u.WriteString("Definition go_upper_tab : list (Z*Z) := [")
+	first := true
+	nup := 0
+	for r := rune(0); r <= unicode.MaxRune; r++ {
+		if up := unicode.ToUpper(r); up != r {
+			if !first {
+				u.WriteString("; ")
+			}
+			if nup%8 == 7 {
+				u.WriteString("\n  ")
+			}
+			first = false
+			nup++
+			fmt.Fprintf(&u, "(%d,%d)", r, up)
+		}
+	}
+	u.WriteString("].\n")
+	writeIfChanged(filepath.Join(*out, "Upper.v"), u.String())
 	fmt.Printf("translator: %d predicates, %d intervals\n", len(predOrder), total)
 }
